@@ -183,149 +183,7 @@ func checkC03(c *Ctx) Meta {
 			}
 		}
 	}
-	for _, spec := range []struct{ name, pw string }{{"NewKeystore", "privPassphrase"}, {"ImportKeystore", "newPrivPass"}} {
-		f := c.MustFn("C03-AUTH", "poc/wallet/keystore", "(*KeystoreManagerForPoC)."+spec.name)
-		if f == nil {
-			continue
-		}
-		key := spec.name + ":same-passphrase-as-existing-keystores"
-		chk := firstCall(f, idSafeCheckPw, idCheckPw)
-		upd := updateCallsIn(f)
-		if chk == nil || len(upd) == 0 {
-			c.Bad("C03-AUTH", key, c.Pos(f.Pos()), "reason=anchor-missing: same-passphrase check or db.Update")
-			continue
-		}
-		// the passphrase checked is the one the new keystore is stored under: the same variable that is
-		// handed to create(privPassphrase) / allocAddrMgrNamespace(newPass), not assigned after the check
-		okArg := false
-		{
-			storeFn, storeParam := pkgKeystore+".create", "privPassphrase"
-			if spec.name == "ImportKeystore" {
-				storeFn, storeParam = "(*"+tKMC+").allocAddrMgrNamespace", "newPass"
-			}
-			var under []ssa.Value
-			for _, g := range withClosures(f) {
-				for _, cl := range callsIn(g, storeFn) {
-					callee := cl.Call.StaticCallee()
-					for i, p := range callee.Params {
-						if p.Name() == storeParam && i < len(cl.Call.Args) {
-							under = append(under, cl.Call.Args[i])
-						}
-					}
-				}
-			}
-			cellOfLoad := func(v ssa.Value) ssa.Value {
-				if u, ok := v.(*ssa.UnOp); ok && u.Op == token.MUL {
-					return rootCell(u.X)
-				}
-				return nil
-			}
-			chkCell := cellOfLoad(chk.Call.Args[1])
-			okArg = len(under) > 0
-			for _, u := range under {
-				if u == chk.Call.Args[1] {
-					continue
-				}
-				if uc := cellOfLoad(u); uc == nil || chkCell == nil || uc != chkCell {
-					okArg = false
-				}
-			}
-			if okArg && chkCell != nil {
-				// no assignment to the variable after the check
-				after := reach(f, chk, nil, nil)
-				for _, g := range withClosures(f) {
-					allInstrs(g, func(in ssa.Instruction) {
-						if st, ok := in.(*ssa.Store); ok && rootCell(st.Addr) == chkCell {
-							if g != f || after(st) {
-								okArg = false
-							}
-						}
-					})
-				}
-			}
-			if !backSlice(chk.Call.Args[1]).hasParam(f, spec.pw) {
-				okArg = false
-			}
-		}
-		// whenever an existing keystore is found (range yields one), every path to db.Update passes the check…
-		var body *ssa.BasicBlock
-		allInstrs(f, func(in ssa.Instruction) {
-			nx, ok := in.(*ssa.Next)
-			if !ok {
-				return
-			}
-			if rg, isR := nx.Iter.(*ssa.Range); !isR || !backSlice(rg.X).hasField(tKMC, "managedKeystores") {
-				return
-			}
-			if refs := nx.Referrers(); refs != nil {
-				for _, r := range *refs {
-					if ex, isE := r.(*ssa.Extract); isE && ex.Index == 0 {
-						for _, t := range boolTestsOf(f, ex) {
-							if instrDominates(nx, chk) && t.TrueSucc.Dominates(chk.Block()) {
-								body = t.TrueSucc
-							}
-						}
-					}
-				}
-			}
-		})
-		if body == nil {
-			c.Bad("C03-AUTH", key, c.Pos(chk.Pos()), "the same-passphrase check is not made for an existing keystore of the manager")
-			continue
-		}
-		// from the entry, with the "no keystore exists" edges cut (empty range, len(...) > 0 false),
-		// db.Update must not be reachable without passing the check
-		emptyCut := func(from, to *ssa.BasicBlock) bool {
-			iff, ok := from.Instrs[len(from.Instrs)-1].(*ssa.If)
-			if !ok || len(from.Succs) != 2 || to != from.Succs[1] || from.Succs[0] == from.Succs[1] {
-				return false
-			}
-			switch x := iff.Cond.(type) {
-			case *ssa.Extract: // ok of Next over managedKeystores
-				if nx, isN := x.Tuple.(*ssa.Next); isN && x.Index == 0 {
-					if rg, isR := nx.Iter.(*ssa.Range); isR && backSlice(rg.X).hasField(tKMC, "managedKeystores") {
-						return true
-					}
-				}
-			case *ssa.BinOp: // len(kmc.managedKeystores) > 0
-				if x.Op == token.GTR {
-					if k, isK := x.Y.(*ssa.Const); isK && k.Value != nil && k.Value.String() == "0" {
-						if cl, isC := x.X.(*ssa.Call); isC {
-							if b, isB := cl.Call.Value.(*ssa.Builtin); isB && b.Name() == "len" && backSlice(cl.Call.Args[0]).hasField(tKMC, "managedKeystores") {
-								return true
-							}
-						}
-					}
-				}
-			}
-			return false
-		}
-		r := reach(f, f.Blocks[0].Instrs[0], emptyCut, func(in ssa.Instruction) bool { return in == ssa.Instruction(chk) })
-		skip := false
-		for _, u := range upd {
-			if r(u) {
-				skip = true
-			}
-		}
-		// …and a failed check never reaches db.Update
-		okFail, _ := unreachableWhenCut(f, func(from, to *ssa.BasicBlock) bool {
-			// cut the success edges only along the path through the check: approximated by cutting nil edges
-			return errorEdgeCut(f, chk, false)(from, to)
-		}, nil)
-		_ = okFail
-		rFail := reach(f, chk, errorEdgeCut(f, chk, false), nil)
-		fails := false
-		for _, u := range upd {
-			if rFail(u) {
-				fails = true
-			}
-		}
-		if okArg && !skip && !fails {
-			c.OK("C03-AUTH", key, c.Pos(chk.Pos()), "when a keystore exists, db.Update is reached only through a successful safelyCheckPassword("+spec.pw+")")
-		} else {
-			c.Bad("C03-AUTH", key, c.Pos(chk.Pos()), fmt.Sprintf("a keystore can be created/imported under a private passphrase different from the existing keystores' (checks-caller-passphrase=%v can-skip-check=%v proceeds-after-failure=%v): unlocking would no longer be all-or-nothing", okArg, skip, fails))
-		}
-	}
+	checkSamePassphraseGates(c, "C03-AUTH")
 
 	// ---- CURRENT: who writes the compared credential
 	{
@@ -1014,4 +872,154 @@ func checkScratchKeys(c *Ctx) {
 			}
 		})
 	}
+}
+
+// checkSamePassphraseGates: a keystore is created/imported only under the passphrase an existing
+// keystore accepts (shared by C03-AUTH and C05-GATE: signing-while-locked depends on unlocking being
+// all-or-nothing).
+func checkSamePassphraseGates(c *Ctx, rule string) {
+	for _, spec := range []struct{ name, pw string }{{"NewKeystore", "privPassphrase"}, {"ImportKeystore", "newPrivPass"}} {
+		f := c.MustFn(rule, "poc/wallet/keystore", "(*KeystoreManagerForPoC)."+spec.name)
+		if f == nil {
+			continue
+		}
+		key := spec.name + ":same-passphrase-as-existing-keystores"
+		chk := firstCall(f, idSafeCheckPw, idCheckPw)
+		upd := updateCallsIn(f)
+		if chk == nil || len(upd) == 0 {
+			c.Bad(rule, key, c.Pos(f.Pos()), "reason=anchor-missing: same-passphrase check or db.Update")
+			continue
+		}
+		// the passphrase checked is the one the new keystore is stored under: the same variable that is
+		// handed to create(privPassphrase) / allocAddrMgrNamespace(newPass), not assigned after the check
+		okArg := false
+		{
+			storeFn, storeParam := pkgKeystore+".create", "privPassphrase"
+			if spec.name == "ImportKeystore" {
+				storeFn, storeParam = "(*"+tKMC+").allocAddrMgrNamespace", "newPass"
+			}
+			var under []ssa.Value
+			for _, g := range withClosures(f) {
+				for _, cl := range callsIn(g, storeFn) {
+					callee := cl.Call.StaticCallee()
+					for i, p := range callee.Params {
+						if p.Name() == storeParam && i < len(cl.Call.Args) {
+							under = append(under, cl.Call.Args[i])
+						}
+					}
+				}
+			}
+			cellOfLoad := func(v ssa.Value) ssa.Value {
+				if u, ok := v.(*ssa.UnOp); ok && u.Op == token.MUL {
+					return rootCell(u.X)
+				}
+				return nil
+			}
+			chkCell := cellOfLoad(chk.Call.Args[1])
+			okArg = len(under) > 0
+			for _, u := range under {
+				if u == chk.Call.Args[1] {
+					continue
+				}
+				if uc := cellOfLoad(u); uc == nil || chkCell == nil || uc != chkCell {
+					okArg = false
+				}
+			}
+			if okArg && chkCell != nil {
+				// no assignment to the variable after the check
+				after := reach(f, chk, nil, nil)
+				for _, g := range withClosures(f) {
+					allInstrs(g, func(in ssa.Instruction) {
+						if st, ok := in.(*ssa.Store); ok && rootCell(st.Addr) == chkCell {
+							if g != f || after(st) {
+								okArg = false
+							}
+						}
+					})
+				}
+			}
+			if !backSlice(chk.Call.Args[1]).hasParam(f, spec.pw) {
+				okArg = false
+			}
+		}
+		// whenever an existing keystore is found (range yields one), every path to db.Update passes the check…
+		var body *ssa.BasicBlock
+		allInstrs(f, func(in ssa.Instruction) {
+			nx, ok := in.(*ssa.Next)
+			if !ok {
+				return
+			}
+			if rg, isR := nx.Iter.(*ssa.Range); !isR || !backSlice(rg.X).hasField(tKMC, "managedKeystores") {
+				return
+			}
+			if refs := nx.Referrers(); refs != nil {
+				for _, r := range *refs {
+					if ex, isE := r.(*ssa.Extract); isE && ex.Index == 0 {
+						for _, t := range boolTestsOf(f, ex) {
+							if instrDominates(nx, chk) && t.TrueSucc.Dominates(chk.Block()) {
+								body = t.TrueSucc
+							}
+						}
+					}
+				}
+			}
+		})
+		if body == nil {
+			c.Bad(rule, key, c.Pos(chk.Pos()), "the same-passphrase check is not made for an existing keystore of the manager")
+			continue
+		}
+		// from the entry, with the "no keystore exists" edges cut (empty range, len(...) > 0 false),
+		// db.Update must not be reachable without passing the check
+		emptyCut := func(from, to *ssa.BasicBlock) bool {
+			iff, ok := from.Instrs[len(from.Instrs)-1].(*ssa.If)
+			if !ok || len(from.Succs) != 2 || to != from.Succs[1] || from.Succs[0] == from.Succs[1] {
+				return false
+			}
+			switch x := iff.Cond.(type) {
+			case *ssa.Extract: // ok of Next over managedKeystores
+				if nx, isN := x.Tuple.(*ssa.Next); isN && x.Index == 0 {
+					if rg, isR := nx.Iter.(*ssa.Range); isR && backSlice(rg.X).hasField(tKMC, "managedKeystores") {
+						return true
+					}
+				}
+			case *ssa.BinOp: // len(kmc.managedKeystores) > 0
+				if x.Op == token.GTR {
+					if k, isK := x.Y.(*ssa.Const); isK && k.Value != nil && k.Value.String() == "0" {
+						if cl, isC := x.X.(*ssa.Call); isC {
+							if b, isB := cl.Call.Value.(*ssa.Builtin); isB && b.Name() == "len" && backSlice(cl.Call.Args[0]).hasField(tKMC, "managedKeystores") {
+								return true
+							}
+						}
+					}
+				}
+			}
+			return false
+		}
+		r := reach(f, f.Blocks[0].Instrs[0], emptyCut, func(in ssa.Instruction) bool { return in == ssa.Instruction(chk) })
+		skip := false
+		for _, u := range upd {
+			if r(u) {
+				skip = true
+			}
+		}
+		// …and a failed check never reaches db.Update
+		okFail, _ := unreachableWhenCut(f, func(from, to *ssa.BasicBlock) bool {
+			// cut the success edges only along the path through the check: approximated by cutting nil edges
+			return errorEdgeCut(f, chk, false)(from, to)
+		}, nil)
+		_ = okFail
+		rFail := reach(f, chk, errorEdgeCut(f, chk, false), nil)
+		fails := false
+		for _, u := range upd {
+			if rFail(u) {
+				fails = true
+			}
+		}
+		if okArg && !skip && !fails {
+			c.OK(rule, key, c.Pos(chk.Pos()), "when a keystore exists, db.Update is reached only through a successful safelyCheckPassword("+spec.pw+")")
+		} else {
+			c.Bad(rule, key, c.Pos(chk.Pos()), fmt.Sprintf("a keystore can be created/imported under a private passphrase different from the existing keystores' (checks-caller-passphrase=%v can-skip-check=%v proceeds-after-failure=%v): unlocking would no longer be all-or-nothing", okArg, skip, fails))
+		}
+	}
+
 }
